@@ -109,6 +109,9 @@ def check_file_case(ctx, case):
             got = self.fetch(path=pin) if kw else self.fetch(pin)
             state['rid'] = rec.current_recording_id
             state['fetch_returned'] = got
+            if case.get('fetch_twice'):
+                # the same input (same key: the local path is not part of it) is fetched again to another path
+                state['fetch2_returned'] = self.fetch(path=pin + '.b') if kw else self.fetch(pin + '.b')
             with open(pin, 'rb') as f:
                 data = f.read()
             with open(pout, 'wb') as f:
@@ -179,6 +182,18 @@ def check_file_case(ctx, case):
         if state['fetch_returned'] != p2:
             raise Violation('replayed input call returned %r, the replayed call named %r' % (state['fetch_returned'], p2),
                             'input-path')
+        if case.get('fetch_twice'):
+            if state.get('fetch2_returned') != p2 + '.b':
+                raise Violation('second replayed fetch of the input returned %r, the call named %r' % (
+                    state.get('fetch2_returned'), p2 + '.b'), 'input-path')
+            if not os.path.exists(p2 + '.b'):
+                raise Violation('the second replayed fetch of the same input did not create the file at the path it '
+                                'named (%s)' % (p2 + '.b'), 'input-path')
+            with open(p2 + '.b', 'rb') as f:
+                got_in2 = f.read()
+            if got_in2 != exp_in:
+                raise Violation('file restored by the second fetch holds %r, expected %r' % (got_in2[:60], exp_in[:60]),
+                                'input-bytes')
         with open(p1, 'rb') as f:
             if f.read() != content:
                 raise Violation('replay overwrote the file at the recorded path', 'input-path')
@@ -236,7 +251,8 @@ def check_file_case(ctx, case):
         'env-limit' if case.get('env_limit') is not None else 'default-limit' if case.get('default_limit') else
         'explicit-limit', 'size:>1MB' if len(content) > 2 ** 20 else 'size:<=1MB',
         'size:near-limit' if near else 'size:other', 'source:procfs' if procfs else 'source:regular', 'preexisting:%s' % case.get('preexisting'),
-        'path-sent-twice' if case.get('republish') else 'path-sent-once', 'empty' if not content else 'nonempty'))
+        'path-sent-twice' if case.get('republish') else 'path-sent-once',
+        'input-fetched-twice' if case.get('fetch_twice') else 'input-fetched-once', 'empty' if not content else 'nonempty'))
 
 
 PLACEHOLDER_HEX = binascii.hexlify(b'above interception limit').decode()
@@ -271,6 +287,7 @@ def cases(draw):
         case['limit_bytes'] = limit
     if 'limit_bytes' in case:
         case['env_also'] = draw(st.sampled_from([None, None, 0, 500, 1]))
+    case['fetch_twice'] = kind != 'procfs' and draw(st.sampled_from([False, False, True]))
     case['republish'] = draw(st.sampled_from([False, False, True]))
     case['preexisting'] = draw(st.sampled_from([None, None, 'same-size', 'same-size', 'shorter', 'longer']))
     case['content'] = binascii.hexlify(content).decode()
